@@ -3,10 +3,10 @@
   identifiable_expression/ast.py (+ Mode, TensorLayer, Context)   -> gen/ExhaustAst.v
   identifiable_expression/_exhaust_tensor.py, _extract_context.py -> gen/Exhaust.v
   iteration_graph/_names.py                                       -> gen/Names.v
-  expression/ast.py (the deparse methods)                         -> gen/Deparse.v
+  expression/ast.py (deparse, variables, index_participants)      -> gen/Deparse.v
   desugar/ast.py, desugar/_desugar_expression.py                  -> gen/Desugar.v
 
-The hand models (coq/model/{Exhaust,Context,Names,Parser,DesugarSem,Desugar}.v) are PROVED equal to
+The hand models (coq/model/{Exhaust,Context,Names,Parser,ExprAst,DesugarSem}.v) are PROVED equal to
 these generated definitions in coq/proofs/Gen*_equiv.v (statements: coq/props/TIE.v), so every
 theorem about a hand model is a theorem about what the source says now.
 
@@ -26,11 +26,16 @@ design.d/TIE.md:
   * `+` on str / list / int, `-` on int, `|` on sets, f-strings, `str(int)`, `sep.join(xs)`;
   * `if` blocks that only re-assign local variables -> `let v := if c then .. else v`;
   * (desugar) an `ids: Iterator[int]` argument -> a counter threaded through (`next(ids)`, `count()`);
-    `match` statements with class patterns; `for` loops -> `fold_left` (pure body) or a local `fix`
+    `match` statements with class patterns; `for` loops -> `fold_left` (pure body) or `ofold`
     in the state/option monad; iteration over a SET goes through the order oracle `ord`, keyed by the
     value the counter had on entry to the enclosing function / loop body; set operations on
     duplicate-free lists; comprehensions with tuple targets and several `for`s; `reduce`, `all`;
-    `x if v is None else f(v)`; functions that are not structurally recursive take explicit fuel.
+    `x if v is None else f(v)`; functions that are not structurally recursive take explicit fuel
+    (open recursion: `f_body` + one Fixpoint on fuel);
+  * (variables / index_participants) dicts as association lists in insertion order: `{}`, `{k: v}`,
+    `.get`, `d[k]`, `k in d`, `.keys()`, `.items()`, `.copy()`, `d[k] = v` on an un-aliased local
+    dict, `{k: v for k in <set>}`, `enumerate`, set displays, `[*a, *b]`, tail call of a module-level
+    helper expanded in place.
 """
 
 from __future__ import annotations
@@ -1081,6 +1086,9 @@ class XTranslator(Translator):
                     sc.origins[name] = sc.origins.pop(v)
                 sc.types[name] = ty
                 return wrap(binds, self.body(rest, sc))
+            if ty == "(pydict _ _)" and sc.ret and dict_of(sc.ret) and not unknown(sc.ret) and any(
+                    isinstance(r, ast.Return) and isinstance(r.value, ast.Name) and r.value.id == name for r in rest):
+                ty = sc.ret  # `d = {}` ... `return d`: the declared return type
             if unknown(ty) and ty not in ("(option _)", "(pydict _ _)"):
                 raise Unsupported(s, "cannot infer the type of the assigned value")
             sc.types[name] = ty
@@ -1757,6 +1765,7 @@ def gen_deparse(src: Path) -> str:
                "Variable ord_set : list string -> list string.\n")
     out.append(fe.emit_hierarchy_method("ex_expr", "index_participants", "(pydict string (pyset (string * Z)))",
                                         "Expression_index_participants"))
+    out.append(fe.emit_record_method("Assignment", "index_participants"))
     out.append("End IndexParticipants.\n")
     tr.inline, tr.oracle_nokey = {}, None
     out.append("Section Deparse.\n(* Python's str(float) (repr of a binary64) is not modelled: an abstract rendering *)\n"
